@@ -87,11 +87,13 @@ META = {
              "deleted ids are never reused. FLOOD BOUND, full strength (flood_bound): for every span of every mixed history with restarts (get-or-create for any "
              "metrics/keys, put, delete, reset-flood of other metrics, entity saves, reopen) that starts with the global budget exhausted, and every metric m "
              "whose requests see a non-decreasing clock in [t0,T], T<2^32: #created(m) <= max(maxBudget, remaining budget of m at the start) + bonus*(T/step - t0/step); "
-             "the remaining budget is <= max(maxBudget, 10000) in every reachable state (budget_bounded); 'exhausted' is preserved by every operation; frame lemma "
+             "ACROSS RESETS (flood_bound_across_resets): with any number of reset-flood requests of m inside the span, "
+             "#created(m) <= max(maxBudget, budget at start) + SUM over those resets of max(maxBudget, value the reset sets, capped at 10000 as the code caps it) "
+             "+ bonus*(T/step - t0/step); the remaining budget is <= max(maxBudget, 10000) in every reachable state (budget_bounded); 'exhausted' is preserved by every operation; frame lemma "
              "hstep_row: only a reset of m or a successful creation for m writes m's row, the latter as exactly one calcBudget attempt; a request with no budget "
              "left answers flood-limit and changes nothing (beyond_budget_is_flood_error)."),
-    "note": ("Trusted: Lean kernel, SQLite, model<->code correspondence (quick 400, thorough 12000 histories + corpus). Hypotheses of flood_bound, each shown necessary "
-             "by a kernel-checked witness: no reset of m inside the span; non-decreasing clock (backwards_clock_breaks_bound: the uint32 subtraction now-lastTimeUpdate "
+    "note": ("Trusted: Lean kernel, SQLite, model<->code correspondence (quick 400, thorough 12000 histories + corpus). Hypotheses of flood_bound / flood_bound_across_resets, each shown necessary "
+             "by a kernel-checked witness: (flood_bound only) no reset of m inside the span; non-decreasing clock (backwards_clock_breaks_bound: the uint32 subtraction now-lastTimeUpdate "
              "wraps and refills the budget to maxBudget-1, wrap_refills states exactly when); stepSec>=1, bonus>=0, maxBudget>=1 (zero_budget_creates). The bound uses "
              "max(maxBudget, budget) rather than the budget itself because ResetFlood stores the UNROUNDED time: after a reset to a value <= maxBudget the next creation "
              "in the same step wraps as well (observation 1 in Props/C19, corpus/C19/reset-then-create-same-step.ops); still within the property as read here. "
